@@ -172,7 +172,7 @@ func call(client *core.Client) callResult {
 func TestCheck(t *testing.T) {
 	r := h.Start(t, "C20")
 	defer r.Finish()
-	r.Meta("rule", "under virtual time the real CircuitBreaker is installed on a real core.Client in front of a scripted downstream handler. Exhaustive: every success/error/panic outcome sequence of the forwarded calls up to length 8 x threshold {0,1,2,5} x recovery regimes {effectively infinite, zero, finite with probes at recovery-1ns / recovery / recovery+1ns after the last failure, virtual gaps between calls, and forwarded calls that take 0..2.5 recovery times before they fail} x installation {IO handler only, whole plugin, plugin with mock service}; each call is compared with a reference state machine written from the property statement (consecutive-failure count kept as an interval after a recovery, so only verdicts valid for every admissible count are reported): rejected-while-closed, forwarded-while-open, wrong error identity, mock service used / not used, downstream invoked on a rejected call. Concurrent: 8 callers, histories of two-phase operations (admit, complete) recorded with a logical clock at the client boundary and checked with porcupine against the same machine (recovery infinite). distinct_nontrivial = distinct (threshold, regime, installation, outcome sequence) combinations + concurrent histories")
+	r.Meta("rule", "under virtual time the real CircuitBreaker is installed on a real core.Client in front of a scripted downstream handler. Exhaustive: every success/error/panic outcome sequence of the forwarded calls up to length 8 x threshold {0,1,2,5} x recovery regimes {effectively infinite, zero, finite with probes at recovery-1ns / recovery / recovery+1ns after the last failure, virtual gaps between calls, and forwarded calls that take 0..2.5 recovery times before they fail} x installation {IO handler only, whole plugin, plugin with mock service}; each call is compared with a reference state machine written from the property statement (consecutive-failure count kept as an interval after a recovery, so only verdicts valid for every admissible count are reported): rejected-while-closed, forwarded-while-open, wrong error identity, mock service used / not used, downstream invoked on a rejected call. Concurrent: 8 callers, histories of two-phase operations (admit, complete) recorded with a logical clock at the client boundary and checked with porcupine against the same machine (recovery infinite). distinct_nontrivial = distinct (threshold, regime, installation, outcome sequence) combinations + concurrent histories Added: forwarded calls that take 0..2.5 recovery times before they fail (the open window starts when the call fails).")
 	r.Meta("exhaustive", true)
 	r.Meta("assumptions", []string{
 		"the failure count the breaker resumes with after the recovery time is not specified by the property: the reference keeps it as an interval [0, threshold] until a success or enough failures collapse it",
